@@ -63,7 +63,8 @@ def run(ctx):
                            "order": [s["pos"] for s in rec["stores"]],
                            "storeerr": rec["storeerr"], "fetch": rec["fetch"],
                            "hashes": case["hashes"], "ienc": rec.get("ienc"),
-                           "multiscale": rec.get("multiscale"), "scale": rec.get("scale")})
+                           "multiscale": rec.get("multiscale"), "scale": rec.get("scale"),
+                           "coord_type": rec.get("coord_type")})
     beyond_property(ctx)
     for rec, case in cases[:2]:
         ctx.sample({"cfg": rec["cfg"], "strategy": rec["strategy"],
